@@ -272,7 +272,7 @@ def finish_events(evs, outs, v, pid):
 
 TRACE_CFG = open(os.path.join(SPEC, "PduTrace.cfg")).read() if os.path.exists(os.path.join(SPEC, "PduTrace.cfg")) else ""
 
-def validate_events(v, wd, shards, pid, name="trace", module="PduTrace", cfg=None, keyfn=None, independent=True):
+def validate_events(v, wd, shards, pid, name="trace", module="PduTrace", cfg=None, keyfn=None, independent=True, resume=None):
     """Validate event lists (one per shard) with TLC in parallel.  A rejected trace is located
     (first event TLC could not match) and reported."""
     cfg = cfg or TRACE_CFG
@@ -282,8 +282,10 @@ def validate_events(v, wd, shards, pid, name="trace", module="PduTrace", cfg=Non
         with open(p, "w") as f:
             for e in evs: f.write(json.dumps(e, separators=(",", ":")) + "\n")
         paths.append(p)
-    def key_of(ev):
-        if keyfn: return keyfn(ev)
+    def key_of(ev, evs=None, idx=None):
+        if keyfn:
+            try: return keyfn(ev, evs, idx)
+            except TypeError: return keyfn(ev)
         return "view=%s op=%s path=%s field=%s kind=trace" % (ev.get("view"), ev.get("op"), ev.get("path"), ev.get("field") or ev.get("id") or "-")
     def one(i):
         """validate shard i; after a rejection, report the event TLC could not match and go on with the
@@ -303,10 +305,15 @@ def validate_events(v, wd, shards, pid, name="trace", module="PduTrace", cfg=Non
             if "is violated" in txt and "TraceAccepted" not in txt:
                 consumed = max(res.depth - 2, 0)      # an invariant failed in the state after the last matched event
             idx = min(start + consumed, len(evs) - 1)
-            rejected.append((idx, evs[idx], txt[-1200:]))
-            if not independent or idx + 1 >= len(evs):
+            rejected.append((idx, evs[idx], txt[-1200:], key_of(evs[idx], evs, idx)))
+            if resume is not None:
+                nxt = resume(evs, idx)
+                if nxt is None or nxt >= len(evs): return (False, results, rejected)
+                start = nxt
+            elif not independent or idx + 1 >= len(evs):
                 return (False, results, rejected)
-            start = idx + 1
+            else:
+                start = idx + 1
             path = os.path.join(wd, "%s_%s_%d_r%d.ndjson" % (pid, name, i, attempt))
             with open(path, "w") as f:
                 for e in evs[start:]: f.write(json.dumps(e, separators=(",", ":")) + "\n")
@@ -320,8 +327,8 @@ def validate_events(v, wd, shards, pid, name="trace", module="PduTrace", cfg=Non
         for j, res in enumerate(ress):
             v.add_tlc("%s[%d]%s" % (name, i, "" if j == 0 else ".%d" % j), res)
         if ok: accepted += 1
-        for idx, ev, txt in rejected:
-            v.violation(key_of(ev), "recorded call is not a behaviour of the specification (event %d of %s shard %d): %s" % (idx + 1, name, i, json.dumps(ev)[:600]),
+        for idx, ev, txt, k_ in rejected:
+            v.violation(k_, "recorded call is not a behaviour of the specification (event %d of %s shard %d): %s" % (idx + 1, name, i, json.dumps(ev)[:600]),
                         {"trace_event": ev, "index": idx, "tlc": txt})
     v.cov["traces_validated_against_impl"] += accepted
     return accepted
@@ -488,3 +495,13 @@ def validate_facts(v, wd, evs, pid):
     def key(ev):
         return "fact=%s view=%s name=%s" % (ev["kind"], ev.get("view"), ev.get("name") + ("." + ev["member"] if "member" in ev else ""))
     return validate_events(v, wd, [evs], pid, name="facts", module="FactsTrace", cfg=cfg, keyfn=key)
+
+
+def shard_by(evs, is_start, n):
+    """split an event list into <= n parts at scenario boundaries"""
+    starts = [i for i, e in enumerate(evs) if is_start(e)]
+    if not starts: return [evs]
+    n = max(1, min(n, len(starts)))
+    per = (len(starts) + n - 1) // n
+    cuts = [starts[i] for i in range(0, len(starts), per)] + [len(evs)]
+    return [evs[cuts[i]:cuts[i + 1]] for i in range(len(cuts) - 1)]
